@@ -544,7 +544,8 @@ def cscript(script):
 
 
 def coev(e):
-    return "(mkO %s %s %s %s %s)" % (cnat(e["blk"]), cvecs(e["cur"]), cqvec(e["probes"]), cqvec(e["pt"]), copt(e["cache"], cq))
+    return "(mkO %s %s %s %s %s %s %s)" % (cnat(e["blk"]), cvecs(e["cur"]), cqvec(e["probes"]), cqvec(e["pt"]), copt(e["cache"], cq),
+                                          copt(e.get("grad"), cqvec), copt(e.get("gshape"), cq))
 
 
 def cops(ops):
@@ -1140,7 +1141,7 @@ def cache_probe_real(which):
 # ------------------------------------------------------------------------------------------
 # real CUQIpy families and the real block samplers (kernels opaque: the model is handed what they returned)
 # ------------------------------------------------------------------------------------------
-TOL_REAL = Fraction(1, 10 ** 8)
+TOL_REAL = Fraction(1, 10 ** 7)
 
 
 def real_model(meta):
@@ -1166,6 +1167,23 @@ def real_model(meta):
     return JointDistribution(*[dens[n] for n in meta["spec"]["names"]])
 
 
+def real_kind(meta, i):
+    """how the model treats block i of a real-family scenario"""
+    a = meta["assign"][i]
+    if a == "Conjugate":
+        return "KConj"
+    if a == "LinearRTO":
+        return "KLrto" if meta.get("zero_noise") else "KRec"
+    if a == "NUTS":
+        return "KNuts"
+    return "KOpq" if a in ("MH", "CWMH", "MALA", "ULA", "PCN") else "KRec"
+
+
+def real_poly_block(meta, i):
+    """is the conditional of block i polynomial (no log term)?  Then cached logd / gradient can be compared with the model's"""
+    return not (meta["model"] in ("hier",) and meta["spec"]["names"][i] in ("d", "l"))
+
+
 def real_sampler(meta, i, tr):
     from cuqi.experimental.mcmc import MH, MALA, ULA, CWMH, PCN, NUTS, LinearRTO, Conjugate, Direct
     base = {"MH": MH, "MALA": MALA, "ULA": ULA, "CWMH": CWMH, "PCN": PCN, "NUTS": NUTS, "LinearRTO": LinearRTO,
@@ -1185,6 +1203,12 @@ def real_sampler(meta, i, tr):
                     c, f = np.asarray(getattr(self, key), dtype=float).ravel(), np.asarray(fn(), dtype=float).ravel()
                     chk.append([key, bool(c.shape == f.shape and np.allclose(c, f, rtol=1e-12, atol=0)), c.tolist(), f.tolist()])
             ev["cachechk"] = chk
+            nm_a = meta["assign"][self._blk]
+            if real_poly_block(meta, self._blk):
+                if nm_a in ("MH", "CWMH", "MALA", "ULA", "NUTS") and getattr(self, "current_target_logd", None) is not None:
+                    ev["cache"] = float(np.ravel(self.current_target_logd)[0])
+                if nm_a in ("MALA", "ULA", "NUTS") and getattr(self, "current_target_grad", None) is not None:
+                    ev["grad"] = [float(a) for a in np.ravel(self.current_target_grad)]
             # what the draw itself is made from (not only which target the sampler holds): the Gamma parameters a Conjugate
             # block hands to numpy, and -- with the normal draw replaced by 0 -- the point LinearRTO returns (= conditional mean)
             orig_g, orig_n = np.random.gamma, np.random.randn
@@ -1192,7 +1216,10 @@ def real_sampler(meta, i, tr):
 
             def gam(*a, **k):
                 cap["shape"], cap["scale"] = float(np.ravel(k.get("shape", a[0] if a else np.nan))[0]), float(np.ravel(k.get("scale", a[1] if len(a) > 1 else 1.0))[0])
-                return orig_g(*a, **k)
+                z = self._zs.pop(0) if self._zs else 1.0          # scripted standard Gamma variate: the draw is z * scale = z / rate
+                cap["z"] = z
+                size = k.get("size", a[2] if len(a) > 2 else None)
+                return np.ones(size if size is not None else ()) * z * np.asarray(k.get("scale", a[1] if len(a) > 1 else 1.0), dtype=float)
             if meta["assign"][self._blk] == "Conjugate":
                 np.random.gamma = gam
             if meta["assign"][self._blk] == "LinearRTO" and meta.get("zero_noise"):
@@ -1203,6 +1230,8 @@ def real_sampler(meta, i, tr):
                 np.random.gamma, np.random.randn = orig_g, orig_n
             if cap:
                 ev["gamma"] = [cap["shape"], cap["scale"]]
+                ev["gshape"] = cap["shape"]
+                self._tr.zused[self._blk].append(cap["z"])
             if meta["assign"][self._blk] == "LinearRTO" and meta.get("zero_noise"):
                 ev["zmean"] = [float(a) for a in np.asarray(self.current_point).ravel()]
             self._tr.results[self._blk].append([float(a) for a in np.asarray(self.current_point).ravel()])
@@ -1222,6 +1251,7 @@ def real_sampler(meta, i, tr):
         kw["maxit"], kw["tol"] = len(ip) + 3, 1e-10
     smp = W(**kw)
     smp._tr, smp._blk = tr, i
+    smp._zs = list(meta.get("zs", [[]] * len(meta["assign"]))[i])
     return smp
 
 
@@ -1231,6 +1261,7 @@ def run_real(meta):
     k = len(spec["names"])
     tr = Trace(spec, meta["probes"])
     tr.results = [[] for _ in range(k)]
+    tr.zused = [[] for _ in range(k)]
     obs = {"error": None}
     np.random.seed(meta["npseed"])
     try:
@@ -1251,6 +1282,7 @@ def run_real(meta):
                     G.warmup(op[1], tune_freq=op[2])
         obs["events"] = tr.events
         obs["results"] = tr.results
+        obs["zused"] = tr.zused
         obs["cur"] = tr.snapshot()
         obs["stored_lens"] = [len(G.samples[n]) for n in spec["names"]]
         nsw = min(obs["stored_lens"])
@@ -1277,7 +1309,22 @@ def real_script(meta, obs):
     nst = [1 if (meta["num_steps"] is None or meta["num_steps"][i] is None) else meta["num_steps"][i] for i in range(k)]
     nsw = sum(op[1] for op in meta["ops"])
     res = obs.get("results") or [[] for _ in range(k)]
-    get = lambda i, n: res[i][n] if n < len(res[i]) else [0.0] * meta["spec"]["dims"][i]      # fewer transitions than configured: the oracle reports it
+    zus = obs.get("zused") or [[] for _ in range(k)]
+
+    def get(i, n):
+        if real_kind(meta, i) == "KConj":                    # the model computes the draw itself from the scripted variate
+            return [zus[i][n]] if n < len(zus[i]) else [1.0]
+        return res[i][n] if n < len(res[i]) else [0.0] * meta["spec"]["dims"][i]      # fewer transitions than configured: the oracle reports it
+    return [[[{"vec": get(i, t * nst[i] + j), "u": None, "acc": 1} for j in range(nst[i])] for i in range(k)] for t in range(nsw)]
+
+
+def real_results_script(meta, obs):
+    """for the trace oracle: what every transition returned"""
+    k = len(meta["spec"]["names"])
+    nst = [1 if (meta["num_steps"] is None or meta["num_steps"][i] is None) else meta["num_steps"][i] for i in range(k)]
+    nsw = sum(op[1] for op in meta["ops"])
+    res = obs.get("results") or [[] for _ in range(k)]
+    get = lambda i, n: res[i][n] if n < len(res[i]) else [0.0] * meta["spec"]["dims"][i]
     return [[[{"vec": get(i, t * nst[i] + j), "u": None, "acc": 1} for j in range(nst[i])] for i in range(k)] for t in range(nsw)]
 
 
@@ -1414,17 +1461,33 @@ def cgjoint(meta):
     return "(gjoint %s [])" % clist([f1, f2])
 
 
-def encode_real(meta, obs):
+def real_model_scale(meta, i):
+    """the constant the model keeps in s_scale: Conjugate: the Gamma shape it must use; otherwise the step of the exact
+    finite differences (the block's scale)"""
+    nm = meta["spec"]["names"][i]
+    if real_kind(meta, i) == "KConj":
+        return Fraction(len(meta["A"][0]) if nm == "d" else len(meta["A"]), 2) + 1
+    if meta["model"] == "hier" and nm in ("d", "l"):
+        return Fraction(meta["inits"][i][0])
+    return Fraction(meta["sigma"])
+
+
+def encode_real(meta, obs, fresh=True):
     if obs.get("error"):
         return "false"
     k = len(meta["spec"]["names"])
     ns = clist([]) if meta["num_steps"] is None else clist([copt(n, cnat) for n in meta["num_steps"]])
-    m2 = dict(meta)
-    m2["script"] = real_script(meta, obs)
+    sc = real_script(meta, obs)
     combos = clist([clist([czvec(c) for c in meta["combos"][i]]) for i in range(k)])
-    return "check_hybrid_tol %s %s %s %s %s %s %s %s %s %s %s %s" % (
-        cgjoint(meta), cvecs(meta["inits"]), ns, cscript(m2["script"]), cops(meta["ops"]), clist([cvecs(p) for p in meta["probes"]]),
-        combos, cq(TOL_REAL), clist([coev(dict(e, cache=None)) for e in obs["events"]]), cvecs(obs["cur"]),
+    evs = []
+    for e in obs["events"]:
+        e2 = dict(e)
+        e2.setdefault("cache", None)
+        evs.append(coev(e2))
+    return "check_hybrid_tol %s %s %s %s %s %s %s %s %s %s %s %s %s %s %s" % (
+        cbool(fresh), cgjoint(meta), clist([real_kind(meta, i) for i in range(k)]), cvecs(meta["inits"]),
+        clist([cq(real_model_scale(meta, i)) for i in range(k)]), ns, cscript(sc), cops(meta["ops"]),
+        clist([cvecs(p) for p in meta["probes"]]), combos, cq(TOL_REAL), clist(evs), cvecs(obs["cur"]),
         clist([cvecs(st) for st in obs["stored"]]), cvecs([sm["pt"] for sm in obs["samplers"]]))
 
 
@@ -1487,6 +1550,8 @@ def gen_real(rng, cell):
     meta["combos"] = [combos[nm] for nm in names]
     meta["sscale"] = [sscale.get(nm, 1.0) for nm in names]
     meta["scales"] = [1.0] * k
+    nsw_tot = sum(op[1] for op in ops) * 3 + 8
+    meta["zs"] = [[rng.choice([0.5, 0.75, 1.0, 1.5, 2.0, 3.0]) for _ in range(nsw_tot)] if a == "Conjugate" else [] for a in assign]
     return meta
 
 # ------------------------------------------------------------------------------------------
@@ -1497,8 +1562,8 @@ def make_cases(meta, fresh):
     out = []
     if meta["iface"] == "real":
         obs = run_real(meta)
-        detail, sig = oracle_hybrid(dict(meta, script=real_script(meta, obs)), obs)
-        out.append(Case(expr=encode_real(meta, obs), meta=meta, cell=meta["cell"], kind="DECISION", impl_fail=detail, signature=sig or ""))
+        detail, sig = oracle_hybrid(dict(meta, script=real_results_script(meta, obs)), obs)
+        out.append(Case(expr=encode_real(meta, obs, fresh), meta=meta, cell=meta["cell"], kind="DECISION", impl_fail=detail, signature=sig or ""))
         d = real_cache_check(meta, obs)
         m2 = dict(meta)
         m2["check"] = "cache"
@@ -1592,7 +1657,7 @@ def oracle(ctx, meta):
     m = meta.get("meta", meta)
     if m.get("iface") == "real":
         obs = run_real(m)
-        return real_cache_check(m, obs) if m.get("check") == "cache" else oracle_hybrid(dict(m, script=real_script(m, obs)), obs)[0]
+        return real_cache_check(m, obs) if m.get("check") == "cache" else oracle_hybrid(dict(m, script=real_results_script(m, obs)), obs)[0]
     if m.get("iface") == "hybrid":
         obs = run_hybrid(m)
         if m.get("check") == "cache":
@@ -1627,7 +1692,7 @@ def replay(ctx, meta):
         print("implementation: stored sweeps", obs.get("stored"), "error", obs.get("error"))
         for e in obs.get("events", [])[:12]:
             print("  step of block %s: current_samples %s, point %s, target at probes %s" % (m["spec"]["names"][e["blk"]], e["cur"], e["pt"], e["probes"]))
-        print("property oracle (wiring, closed-form conditionals):", oracle_hybrid(dict(m, script=real_script(m, obs)), obs))
+        print("property oracle (wiring, closed-form conditionals):", oracle_hybrid(dict(m, script=real_results_script(m, obs)), obs))
         print("property oracle (cached evaluations):", real_cache_check(m, obs))
         return 0
     if m.get("iface") == "hybrid":
